@@ -20,7 +20,7 @@ ENGINE = "netsim-thread"
 
 TIERS = {
     "quick": {"runs": 16000, "batch": 200},
-    "thorough": {"runs": 300000, "batch": 500},
+    "thorough": {"runs": 1000000, "batch": 1000},
 }
 
 MAGICS = {
